@@ -1,4 +1,257 @@
-import AY.Spec.Plain
+/-
+  C03 — "Priorities: the highest-priority writer wins, the latest among equals".
+
+  Statement (properties.jsonl): For every leaf path, the merged value is the one written by the
+  stage whose value there has the highest priority (!force > untagged > !weak), and among equal
+  priorities the latest stage; a priority tag on a container applies to everything below it. This
+  holds for any number of stages and any order in which differently-prioritised writers appear, and
+  user metadata attached to the competing values is combined under the same rule without losing
+  keys.
+
+  Model side: `leafRule`, `mergeF`, `flatten`, `construct` (AY/Model).  Auxiliary definitions and
+  proofs: AY/Lemmas/C03Leaf.lean (metadata dictionaries `mlookup/mkeys/mNodup`, the leaf rule),
+  AY/Lemmas/C03Dict.lean (`dictShaped`, `flagsDS`, `leafAt`, `shapeAt`, `compatP`, `pick`, main
+  induction), AY/Lemmas/C03Fold.lean (`pairwiseCompat`, `argmaxLeaf`, `vp`, the fold; Boolean
+  test `compatB`), AY/Lemmas/C03Tag.lean (`allPrio`, priority tags on containers).
+  PARTIAL (suffix `_partial`): the fold theorem is stated for documents given as dict-shaped node
+  trees (mappings of mappings with scalar leaves, tags: priority + metadata only), the domain of
+  the property's oracle; lists and type changes at a path belong to C04.
+-/
+import AY.Lemmas.C03Leaf
+import AY.Lemmas.C03Fold
+import AY.Lemmas.C03Tag
+import AY.Lemmas.Native
 namespace AY
-theorem C03_placeholder : foldUpd [] = .error .value := rfl
+
+/-! ### Concrete inputs used by the non-vacuity examples -/
+
+/-- `!weak {{x: 1, n: w}} 1` / `!force {{y: 2, x: 9}} 2` / `{{x: 3}} 3` as stored leaves -/
+def c03Weak : Node := .leaf { prio := some (-1), md := [("x", .int 1), ("n", .str "w")] } (.scalar (.int 1))
+def c03Force : Node := .leaf { prio := some 1, md := [("y", .int 2), ("x", .int 9)] } (.scalar (.int 2))
+def c03Std : Node := .leaf { md := [("x", .int 3)], iDel := some true } (.scalar (.int 3))
+
+/-! ### The order of the priorities -/
+
+/- "!force > untagged > !weak": the three priority constants read from the code
+   (`ConfigNode.FORCE/STANDARD/WEAK`, regenerated into AY/Gen/Tables.lean on every run) are
+   strictly ordered, an untagged node has the standard priority, and the tags `!force` / `!weak`
+   set exactly these constants. -/
+theorem C03_priority_order :
+    Tables.force > Tables.standard ∧ Tables.standard > Tables.weak ∧
+    Tables.defaultPriority = Tables.standard ∧
+    Tables.tagForce.1 = some Tables.force ∧ Tables.tagWeak.1 = some Tables.weak ∧
+    (∀ f : Flags, f.prio = none → ePrio f = Tables.standard) := by
+  refine ⟨by decide, by decide, rfl, rfl, rfl, ?_⟩
+  intro f h
+  simp [ePrio, h, Tables.defaultPriority, Tables.standard]
+
+example : ePrio c03Force.flags = Tables.force ∧ ePrio c03Std.flags = Tables.standard ∧
+    ePrio c03Weak.flags = Tables.weak := by decide
+
+/-! ### Two competing values -/
+
+/- "the merged value is the one written by the stage whose value there has the highest priority …
+   and among equal priorities the latest stage … user metadata attached to the competing values is
+   combined under the same rule": for ANY two nodes `a` (older) and `b` (newer) meeting in the leaf
+   rule (`ConfigNode.on_merge_impl`; any flags, any metadata) the result is `b` unless `a` has the
+   STRICTLY higher priority, in which case it is `a` (the Boolean tells whether the result is still
+   the `self` object). The surviving node keeps its own value/children, its own priority, `delete`
+   and inherited flags; its metadata is `{**loser.md, **winner.md}` (`mmerge`, see `C03_md_union`). -/
+theorem C03_leaf_step (a b : Node) :
+    (ePrio a.flags > ePrio b.flags →
+      leafRule a b = (a.setFlags (replaceOtherFlags a.flags b.flags), true)) ∧
+    (¬ ePrio a.flags > ePrio b.flags →
+      leafRule a b = (b.setFlags (replaceOtherFlags b.flags a.flags), false)) ∧
+    (∀ w l : Node,
+      native (w.setFlags (replaceOtherFlags w.flags l.flags)) = native w ∧
+      (w.setFlags (replaceOtherFlags w.flags l.flags)).children = w.children ∧
+      (w.setFlags (replaceOtherFlags w.flags l.flags)).flags.prio = w.flags.prio ∧
+      ePrio (w.setFlags (replaceOtherFlags w.flags l.flags)).flags = ePrio w.flags ∧
+      (w.setFlags (replaceOtherFlags w.flags l.flags)).flags.del = w.flags.del ∧
+      (w.setFlags (replaceOtherFlags w.flags l.flags)).flags.iDel = w.flags.iDel ∧
+      (w.setFlags (replaceOtherFlags w.flags l.flags)).flags.iNew = w.flags.iNew ∧
+      (w.setFlags (replaceOtherFlags w.flags l.flags)).flags.md = mmerge l.flags.md w.flags.md) ∧
+    (∀ fa ka fb kb, a = .leaf fa ka → b = .leaf fb kb → ∀ fuel,
+      mergeF (fuel + 1) a b = .ok (leafRule a b)) := by
+  refine ⟨leafRule_self_wins, leafRule_other_wins, ?_, ?_⟩
+  · intro w l
+    rw [flags_setFlags]
+    refine ⟨native_setFlags _ _, ?_, rfl, rfl, rfl, rfl, rfl, rfl⟩
+    cases w <;> rfl
+  · intro fa ka fb kb ha hb fuel
+    subst ha; subst hb; rfl
+
+-- strong before weak, weak before strong, equal priorities: the three cases are all inhabited
+example : ePrio c03Force.flags > ePrio c03Std.flags ∧ ¬ ePrio c03Weak.flags > ePrio c03Std.flags ∧
+    ¬ ePrio c03Std.flags > ePrio c03Std.flags := by decide
+example : (leafRule c03Force c03Weak).2 = true ∧ (leafRule c03Weak c03Force).2 = false ∧
+    (leafRule c03Std c03Std).2 = false := by decide
+
+/- "user metadata … is combined … without losing keys": for ANY two metadata dictionaries
+   `mmerge x y` (`{**x, **y}`: `x` the loser's, `y` the winner's) has exactly the keys of `x` and
+   of `y` (union), the keys of `x` first in their old order; every key of `y` carries `y`'s value
+   (its last occurrence, which for a Python dict — no repeated keys, `mNodup` — is its only one),
+   every other key keeps `x`'s value; no repeated key is introduced. -/
+theorem C03_md_union (x y : List (String × Scalar)) :
+    (∀ k, (mlookup k (mmerge x y)).isSome = ((mlookup k x).isSome || (mlookup k y).isSome)) ∧
+    (∀ k, mlookup k (mmerge x y) = (match mlookupLast k y with | some v => some v | none => mlookup k x)) ∧
+    (mNodup y = true → ∀ k, mlookup k (mmerge x y) = (match mlookup k y with | some v => some v | none => mlookup k x)) ∧
+    (∃ extra, mkeys (mmerge x y) = mkeys x ++ extra) ∧
+    (mNodup x = true → mNodup (mmerge x y) = true) := by
+  refine ⟨fun k => mlookup_mmerge_isSome k x y, fun k => mlookup_mmerge k y x, ?_,
+    mkeys_mmerge_prefix y x, mNodup_mmerge y x⟩
+  intro h k
+  rw [mlookup_mmerge, mlookupLast_of_nodup k y h]
+  cases mlookup k y <;> rfl
+
+example : mNodup c03Weak.flags.md = true ∧ mNodup c03Force.flags.md = true ∧
+    mmerge c03Weak.flags.md c03Force.flags.md = [("x", .int 9), ("n", .str "w"), ("y", .int 2)] := by decide
+
+
+/-! ### One merge of two dict-shaped documents -/
+
+/-- `{a: !force {b: 1, c: 2}, d: !weak 3}` / `{a: {b: 5, e: 6}, d: 4}` / `!weak {a: {c: 7}, d: !force 8}` -/
+def c03Raw1 : Raw :=
+  .map .none {} [
+    (.str "a", .map .plain { prio := some 1 } [(.str "b", .scalar .none {} (.lit (.int 1))),
+                                                (.str "c", .scalar .none {} (.lit (.int 2)))]),
+    (.str "d", .scalar .plain { prio := some (-1), md := [("x", .int 1)] } (.lit (.int 3)))]
+def c03Raw2 : Raw :=
+  .map .none {} [
+    (.str "a", .map .none {} [(.str "b", .scalar .none {} (.lit (.int 5))),
+                              (.str "e", .scalar .none {} (.lit (.int 6)))]),
+    (.str "d", .scalar .plain { md := [("y", .int 2)] } (.lit (.int 4)))]
+def c03Raw3 : Raw :=
+  .map .plain { prio := some (-1) } [
+    (.str "a", .map .none {} [(.str "c", .scalar .none {} (.lit (.int 7)))]),
+    (.str "d", .scalar .plain { prio := some 1 } (.lit (.int 8)))]
+def c03D1 : Node := match construct {} c03Raw1 with | .ok n => n | .error _ => default
+def c03D2 : Node := match construct {} c03Raw2 with | .ok n => n | .error _ => default
+def c03D3 : Node := match construct {} c03Raw3 with | .ok n => n | .error _ => default
+
+/- "For every leaf path, the merged value is the one written by the stage whose value there has the
+   highest priority …, and among equal priorities the latest stage" — one merge step: for
+   dict-shaped trees `a` (accumulated) and `b` (newer) that are shape-compatible (`compatP`: a path
+   existing in both is a leaf in both or a mapping in both) and any fuel above the depth of `b`,
+   the merge succeeds and
+   * at every path `p` the leaf of the result is `pick (leafAt a p) (leafAt b p)`: the leaf rule of
+     `C03_leaf_step` when both sides have the leaf, the only one present otherwise;
+   * the result is again dict-shaped, has exactly the paths of `a` and of `b` (`shapeAt`), and is
+     shape-compatible with everything `a` and `b` are compatible with (in particular with both);
+   * a merged container is the `self` object and its flags follow the tail of `on_merge_impl`:
+     `_replace_self` (priority of `b`) when `b` has priority over `a` or the same priority,
+     `_replace_other` otherwise. -/
+theorem C03_dict_step (fuel : Nat) (a b : Node) (ha : dictShaped a = true) (hb : dictShaped b = true)
+    (hc : compatP a b) (hfuel : b.depth < fuel) :
+    ∃ r same, mergeF fuel a b = .ok (r, same) ∧
+      (∀ p, leafAt r p = pick (leafAt a p) (leafAt b p)) ∧
+      dictShaped r = true ∧
+      (∀ p, shapeAt r p = (shapeAt a p).or (shapeAt b p)) ∧
+      (∀ c, compatP a c → compatP b c → compatP r c) ∧ compatP r a ∧ compatP r b ∧
+      (a.isComp = true → same = true ∧
+        r.flags = if hasPrio b.flags a.flags true then replaceSelfFlags a.flags b.flags
+                  else replaceOtherFlags a.flags b.flags) := by
+  obtain ⟨r, same, h, hp, _, _, hfl⟩ := mergeF_DS fuel a b ha hb hc hfuel
+  refine ⟨r, same, h, hp.2.2, hp.1, hp.2.1, fun c h1 h2 => compatP_merged hc h1 h2 hp.2.1,
+    compatP_merged hc (compatP_refl a) (compatP_symm hc) hp.2.1,
+    compatP_merged hc hc (compatP_refl b) hp.2.1, hfl⟩
+
+example : dictShaped c03D1 = true ∧ dictShaped c03D2 = true ∧ compatB c03D1 c03D2 = true ∧ c03D2.depth < 3 := by
+  decide
+example := C03_dict_step 3 c03D1 c03D2 (by decide) (by decide) (compatP_of_compatB _ _ (by decide)) (by decide)
+-- `a.b`: the forced older value 1 survives; `a.e`: only the newer side has it; `d`: weak 3 loses to 4
+example : ((mergeF 3 c03D1 c03D2).map (fun r =>
+    ((leafAt r.1 [.str "a", .str "b"]).map vps, (leafAt r.1 [.str "a", .str "e"]).map vps,
+     (leafAt r.1 [.str "d"]).map vps))).toOption =
+    some (some (some (.int 1), 1), some (some (.int 6), 0), some (some (.int 4), 0)) := by decide
+
+/-! ### Any number of stages -/
+
+/- "This holds for any number of stages and any order in which differently-prioritised writers
+   appear" — PARTIAL (documents as dict-shaped node trees): for every non-empty sequence of
+   pairwise shape-compatible dict-shaped mapping documents `Builder.flatten` succeeds, the result
+   is dict-shaped, and at every path `p`
+   * its leaf is the left fold of the leaf rule over the per-stage leaves, and
+   * value and priority (`vp`) of that leaf are those of `argmaxLeaf` of the per-stage leaves: the
+     stage maximising (priority at `p`, stage index) among the stages that have `p`
+     (`C03_argmax_is_lex_max`). -/
+theorem C03_fold_argmax_partial (d0 : Node) (ds : List Node)
+    (hst : ∀ st, st ∈ d0 :: ds → dictShaped st = true ∧ st.isDict = true)
+    (hpw : pairwiseCompat (d0 :: ds)) :
+    ∃ r, flatten (d0 :: ds) = .ok r ∧ dictShaped r = true ∧
+      (∀ p, leafAt r p = (ds.map (fun st => leafAt st p)).foldl pick (leafAt d0 p)) ∧
+      (∀ p, (leafAt r p).map vp = (argmaxLeaf ((d0 :: ds).map (fun st => leafAt st p))).map vp) := by
+  obtain ⟨r, h1, h2, h3⟩ := flatten_DS d0 ds hst hpw
+  refine ⟨r, h1, h2, h3, ?_⟩
+  intro p
+  rw [h3 p, foldl_pick_argmax]
+  rfl
+
+example : (∀ st, st ∈ [c03D1, c03D2, c03D3] → dictShaped st = true ∧ st.isDict = true) ∧
+    pairwiseCompat [c03D1, c03D2, c03D3] := by
+  refine ⟨?_, pairwiseCompat_of_B _ (by decide)⟩
+  intro st hst
+  simp only [List.mem_cons, List.not_mem_nil, or_false] at hst
+  rcases hst with rfl | rfl | rfl <;> decide
+-- three stages: `d` is written weak (3), untagged (4), then force below a weak root (8, weak wins outermost: -1)
+example : ((flatten [c03D1, c03D2, c03D3]).map (fun r =>
+    ((leafAt r [.str "a", .str "c"]).map vps, (leafAt r [.str "d"]).map vps))).toOption =
+    some (some (some (.int 2), 1), some (some (.int 4), 0)) := by decide
+
+/- `argmaxLeaf` is the lexicographic maximum: when it returns the writer `w`, `w` is the leaf of
+   some stage `i`, and every other stage `j` that has the leaf has a strictly lower priority, or
+   the same priority and is not later than `i` ("the highest priority, the latest among equals");
+   it returns nothing only when no stage has the leaf. -/
+theorem C03_argmax_is_lex_max (l : List (Option Node)) :
+    (∀ w, argmaxLeaf l = some w →
+      ∃ i : Nat, l[i]? = some (some w) ∧
+        ∀ (j : Nat) (m : Node), l[j]? = some (some m) →
+          ePrio m.flags < ePrio w.flags ∨ (ePrio m.flags = ePrio w.flags ∧ j ≤ i)) ∧
+    (argmaxLeaf l = none → ∀ x, x ∈ l → x = none) :=
+  ⟨argmaxLeaf_spec l, argmaxLeaf_none l⟩
+
+example : (argmaxLeaf [some c03Force, none, some c03Std, some c03Force, some c03Weak]).map vps =
+    some (some (.int 2), 1) := by decide
+
+
+/-! ### A priority tag on a container -/
+
+/-- `!weak {a: !force {c: 7}, d: [!force 8, 9]}`: inner `!force` tags below an outer `!weak` -/
+def c03RawTag : Raw :=
+  .map .plain { prio := some (-1) } [
+    (.str "a", .map .plain { prio := some 1 } [(.str "c", .scalar .none {} (.lit (.int 7)))]),
+    (.str "d", .seq .none {} [.scalar .plain { prio := some 1 } (.lit (.int 8)), .scalar .none {} (.lit (.int 9))])]
+
+/- "a priority tag on a container applies to everything below it": for a tag whose keywords carry
+   `priority = p` (`!force`, `!weak`, also combined with `!del`/`!merge`/metadata or a class tag)
+   * the class constructor the loader calls for the tagged sequence / mapping (`wrapSeq`,
+     `wrapMap`: `ComposedNode.__init__` with the already constructed children) returns a tree in
+     which EVERY node carries the explicit priority `p` (`allPrio`), whatever priorities the
+     children had — so of nested priority tags the OUTERMOST wins;
+   * hence the subtree the loader builds for such a tagged container has priority `p` at every
+     path, wherever the container sits (any adopting parent, `constructTD`), in particular for a
+     tagged document root (`construct`);
+   * `allPrio p n` means: every node reachable by a path has `_priority = p`, i.e. `ePrio = p`. -/
+theorem C03_container_tag_applies_below (env : Env) (p : Int) (kw : CtorKw) (hp : kw.prio = some p) :
+    (∀ t cs n, tagTakesKw t = true → wrapSeq env t kw cs = .ok n → allPrio p n = true) ∧
+    (∀ t cs n, t ≠ .none → wrapMap env t kw cs = .ok n → allPrio p n = true) ∧
+    (∀ parent t items n, tagTakesKw t = true →
+      constructTD env parent (.seq t kw items) = .ok n → allPrio p n = true) ∧
+    (∀ parent t items n, t ≠ .none →
+      constructTD env parent (.map t kw items) = .ok n → allPrio p n = true) ∧
+    (∀ t items n, t ≠ .none → construct env (.map t kw items) = .ok n → allPrio p n = true) ∧
+    (∀ n, allPrio p n = true → ∀ q m, getNode n q = some m → m.flags.prio = some p ∧ ePrio m.flags = p) := by
+  refine ⟨fun t cs n ht h => wrapSeq_allPrio env t kw cs p n ht hp h,
+    fun t cs n ht h => wrapMap_allPrio env t kw cs p n hp ht h,
+    fun parent t items n ht h => constructTD_seq_allPrio env parent t kw items n p ht hp h,
+    fun parent t items n ht h => constructTD_map_allPrio env parent t kw items n p ht hp h,
+    fun t items n ht h => constructTD_map_allPrio env none t kw items n p ht hp h, ?_⟩
+  intro n hn q m hg
+  have := allPrio_flags p (allPrio_getNode p q n m hn hg)
+  exact ⟨this, by simp [ePrio, this]⟩
+
+example : ((construct {} c03RawTag).map (fun n => allPrio (-1) n)).toOption = some true := by decide
+example : ((construct {} c03RawTag).map (fun n =>
+    (getNode n [.str "a", .str "c"]).map (fun m => ePrio m.flags))).toOption = some (some (-1)) := by decide
+
 end AY
